@@ -184,6 +184,17 @@ func (bridge *ExprBridge) CompileExpressionWithStreamSQLFunctions(expression str
 		}
 	}
 
+	program, err := bridge.compileWithStreamSQLFunctions(expression, dataType)
+	if err != nil {
+		return nil, err
+	}
+	bridge.programCache.Store(expression, &progCacheEntry{typ: dt, prog: program})
+	return program, nil
+}
+
+// compileWithStreamSQLFunctions compiles the expression against dataType with the StreamSQL
+// functions bound through expr.Function (no caching).
+func (bridge *ExprBridge) compileWithStreamSQLFunctions(expression string, dataType any) (*vm.Program, error) {
 	options := []expr.Option{
 		expr.Env(dataType),
 	}
@@ -218,12 +229,7 @@ func (bridge *ExprBridge) CompileExpressionWithStreamSQLFunctions(expression str
 		// 移除 expr.AsBool() 以允许返回任意类型的值
 	)
 
-	program, err := expr.Compile(expression, options...)
-	if err != nil {
-		return nil, err
-	}
-	bridge.programCache.Store(expression, &progCacheEntry{typ: dt, prog: program})
-	return program, nil
+	return expr.Compile(expression, options...)
 }
 
 // progCacheEntry pairs a compiled program with the env type it was compiled
@@ -260,6 +266,15 @@ func (bridge *ExprBridge) EvaluateExpression(expression string, data map[string]
 			result, err := expr.Run(program, data)
 			if err == nil {
 				return result, nil
+			}
+			// The cached program is specialised on the value types of the row it was compiled
+			// against (== on two ints, ...). When it fails on a row with other types, compile
+			// against this row with the same function bindings before taking the env path,
+			// where names such as concat resolve to expr-lang's own builtins.
+			if fresh, cerr := bridge.compileWithStreamSQLFunctions(expression, data); cerr == nil {
+				if result, rerr := expr.Run(fresh, data); rerr == nil {
+					return result, nil
+				}
 			}
 		}
 	}
